@@ -25,7 +25,7 @@ def main():
     rc, so, se = ws.push(w, scen.flags(cfg, 3, ('-q',)), env={'RAPIDQUILT_VERIF_TRACE': trace, 'RAPIDQUILT_VERIF_SCHEDULE': script})
     evs = p_par.normalise([json.loads(l) for l in open(trace)])
     os.unlink(trace); ws.rmws(w)
-    scn = {'tree0': sc['tree0'], 'series': series, 'cfg': cfg, 'failAt': 0, 'assign': p_par.components(series)}
+    scn = {'tree0': sc['tree0'], 'series': series, 'cfg': cfg, 'failAt': 0, 'assign': p_par.components(series), 'seq': False}
     variants = {'original': evs}
     def idx(pred):
         return next(i for i, e in enumerate(evs) if pred(e))
